@@ -5,7 +5,141 @@ let negb = function
 | true -> false
 | false -> true
 
+type nat =
+| O
+| S of nat
 
+(** val option_map : ('a1 -> 'a2) -> 'a1 option -> 'a2 option **)
+
+let option_map f = function
+| Some a -> Some (f a)
+| None -> None
+
+(** val fst : ('a1 * 'a2) -> 'a1 **)
+
+let fst = function
+| (x, _) -> x
+
+(** val snd : ('a1 * 'a2) -> 'a2 **)
+
+let snd = function
+| (_, y) -> y
+
+(** val length : 'a1 list -> nat **)
+
+let rec length = function
+| [] -> O
+| _ :: l' -> S (length l')
+
+(** val app : 'a1 list -> 'a1 list -> 'a1 list **)
+
+let rec app l m =
+  match l with
+  | [] -> m
+  | a :: l1 -> a :: (app l1 m)
+
+type comparison =
+| Eq
+| Lt
+| Gt
+
+(** val compOpp : comparison -> comparison **)
+
+let compOpp = function
+| Eq -> Eq
+| Lt -> Gt
+| Gt -> Lt
+
+module Coq__1 = struct
+ (** val add : nat -> nat -> nat **)
+ let rec add n0 m =
+   match n0 with
+   | O -> m
+   | S p -> S (add p m)
+end
+include Coq__1
+
+(** val sub : nat -> nat -> nat **)
+
+let rec sub n0 m =
+  match n0 with
+  | O -> n0
+  | S k -> (match m with
+            | O -> n0
+            | S l -> sub k l)
+
+module Nat =
+ struct
+  (** val eqb : nat -> nat -> bool **)
+
+  let rec eqb n0 m =
+    match n0 with
+    | O -> (match m with
+            | O -> true
+            | S _ -> false)
+    | S n' -> (match m with
+               | O -> false
+               | S m' -> eqb n' m')
+
+  (** val leb : nat -> nat -> bool **)
+
+  let rec leb n0 m =
+    match n0 with
+    | O -> true
+    | S n' -> (match m with
+               | O -> false
+               | S m' -> leb n' m')
+
+  (** val ltb : nat -> nat -> bool **)
+
+  let ltb n0 m =
+    leb (S n0) m
+ end
+
+(** val in_dec : ('a1 -> 'a1 -> bool) -> 'a1 -> 'a1 list -> bool **)
+
+let rec in_dec h a = function
+| [] -> false
+| y :: l0 -> let s = h y a in if s then true else in_dec h a l0
+
+(** val removelast : 'a1 list -> 'a1 list **)
+
+let rec removelast = function
+| [] -> []
+| a :: l0 -> (match l0 with
+              | [] -> []
+              | _ :: _ -> a :: (removelast l0))
+
+(** val rev : 'a1 list -> 'a1 list **)
+
+let rec rev = function
+| [] -> []
+| x :: l' -> app (rev l') (x :: [])
+
+(** val map : ('a1 -> 'a2) -> 'a1 list -> 'a2 list **)
+
+let rec map f = function
+| [] -> []
+| a :: t -> (f a) :: (map f t)
+
+(** val flat_map : ('a1 -> 'a2 list) -> 'a1 list -> 'a2 list **)
+
+let rec flat_map f = function
+| [] -> []
+| x :: t -> app (f x) (flat_map f t)
+
+(** val fold_left : ('a1 -> 'a2 -> 'a1) -> 'a2 list -> 'a1 -> 'a1 **)
+
+let rec fold_left f l a0 =
+  match l with
+  | [] -> a0
+  | b0 :: t -> fold_left f t (f a0 b0)
+
+(** val fold_right : ('a2 -> 'a1 -> 'a1) -> 'a1 -> 'a2 list -> 'a1 **)
+
+let rec fold_right f a0 = function
+| [] -> a0
+| b0 :: t -> f b0 (fold_right f a0 t)
 
 (** val existsb : ('a1 -> bool) -> 'a1 list -> bool **)
 
@@ -13,11 +147,47 @@ let rec existsb f = function
 | [] -> false
 | a :: l0 -> (||) (f a) (existsb f l0)
 
+(** val forallb : ('a1 -> bool) -> 'a1 list -> bool **)
+
+let rec forallb f = function
+| [] -> true
+| a :: l0 -> (&&) (f a) (forallb f l0)
+
 (** val filter : ('a1 -> bool) -> 'a1 list -> 'a1 list **)
 
 let rec filter f = function
 | [] -> []
 | x :: l0 -> if f x then x :: (filter f l0) else filter f l0
+
+(** val find : ('a1 -> bool) -> 'a1 list -> 'a1 option **)
+
+let rec find f = function
+| [] -> None
+| x :: tl -> if f x then Some x else find f tl
+
+(** val firstn : nat -> 'a1 list -> 'a1 list **)
+
+let rec firstn n0 l =
+  match n0 with
+  | O -> []
+  | S n1 -> (match l with
+             | [] -> []
+             | a :: l0 -> a :: (firstn n1 l0))
+
+(** val skipn : nat -> 'a1 list -> 'a1 list **)
+
+let rec skipn n0 l =
+  match n0 with
+  | O -> l
+  | S n1 -> (match l with
+             | [] -> []
+             | _ :: l0 -> skipn n1 l0)
+
+(** val nodup : ('a1 -> 'a1 -> bool) -> 'a1 list -> 'a1 list **)
+
+let rec nodup decA = function
+| [] -> []
+| x :: xs -> if in_dec decA x xs then nodup decA xs else x :: (nodup decA xs)
 
 type positive =
 | XI of positive
@@ -28,7 +198,20 @@ type n =
 | N0
 | Npos of positive
 
+type z =
+| Z0
+| Zpos of positive
+| Zneg of positive
+
 module Pos =
+ struct
+  type mask =
+  | IsNul
+  | IsPos of positive
+  | IsNeg
+ end
+
+module Coq_Pos =
  struct
   (** val succ : positive -> positive **)
 
@@ -76,6 +259,72 @@ module Pos =
        | XO q -> XO (succ q)
        | XH -> XI XH)
 
+  (** val pred_double : positive -> positive **)
+
+  let rec pred_double = function
+  | XI p -> XI (XO p)
+  | XO p -> XI (pred_double p)
+  | XH -> XH
+
+  type mask = Pos.mask =
+  | IsNul
+  | IsPos of positive
+  | IsNeg
+
+  (** val succ_double_mask : mask -> mask **)
+
+  let succ_double_mask = function
+  | IsNul -> IsPos XH
+  | IsPos p -> IsPos (XI p)
+  | IsNeg -> IsNeg
+
+  (** val double_mask : mask -> mask **)
+
+  let double_mask = function
+  | IsPos p -> IsPos (XO p)
+  | x0 -> x0
+
+  (** val double_pred_mask : positive -> mask **)
+
+  let double_pred_mask = function
+  | XI p -> IsPos (XO (XO p))
+  | XO p -> IsPos (XO (pred_double p))
+  | XH -> IsNul
+
+  (** val sub_mask : positive -> positive -> mask **)
+
+  let rec sub_mask x y =
+    match x with
+    | XI p ->
+      (match y with
+       | XI q -> double_mask (sub_mask p q)
+       | XO q -> succ_double_mask (sub_mask p q)
+       | XH -> IsPos (XO p))
+    | XO p ->
+      (match y with
+       | XI q -> succ_double_mask (sub_mask_carry p q)
+       | XO q -> double_mask (sub_mask p q)
+       | XH -> IsPos (pred_double p))
+    | XH -> (match y with
+             | XH -> IsNul
+             | _ -> IsNeg)
+
+  (** val sub_mask_carry : positive -> positive -> mask **)
+
+  and sub_mask_carry x y =
+    match x with
+    | XI p ->
+      (match y with
+       | XI q -> succ_double_mask (sub_mask_carry p q)
+       | XO q -> double_mask (sub_mask p q)
+       | XH -> IsPos (pred_double p))
+    | XO p ->
+      (match y with
+       | XI q -> double_mask (sub_mask_carry p q)
+       | XO q -> succ_double_mask (sub_mask_carry p q)
+       | XH -> double_pred_mask p)
+    | XH -> IsNeg
+
   (** val mul : positive -> positive -> positive **)
 
   let rec mul x y =
@@ -83,6 +332,36 @@ module Pos =
     | XI p -> add y (XO (mul p y))
     | XO p -> XO (mul p y)
     | XH -> y
+
+  (** val size : positive -> positive **)
+
+  let rec size = function
+  | XI p0 -> succ (size p0)
+  | XO p0 -> succ (size p0)
+  | XH -> XH
+
+  (** val compare_cont : comparison -> positive -> positive -> comparison **)
+
+  let rec compare_cont r x y =
+    match x with
+    | XI p ->
+      (match y with
+       | XI q -> compare_cont r p q
+       | XO q -> compare_cont Gt p q
+       | XH -> Gt)
+    | XO p ->
+      (match y with
+       | XI q -> compare_cont Lt p q
+       | XO q -> compare_cont r p q
+       | XH -> Gt)
+    | XH -> (match y with
+             | XH -> r
+             | _ -> Lt)
+
+  (** val compare : positive -> positive -> comparison **)
+
+  let compare =
+    compare_cont Eq
 
   (** val eqb : positive -> positive -> bool **)
 
@@ -97,10 +376,55 @@ module Pos =
     | XH -> (match q with
              | XH -> true
              | _ -> false)
+
+  (** val iter_op : ('a1 -> 'a1 -> 'a1) -> positive -> 'a1 -> 'a1 **)
+
+  let rec iter_op op p a =
+    match p with
+    | XI p0 -> op a (iter_op op p0 (op a a))
+    | XO p0 -> iter_op op p0 (op a a)
+    | XH -> a
+
+  (** val to_nat : positive -> nat **)
+
+  let to_nat x =
+    iter_op Coq__1.add x (S O)
+
+  (** val of_succ_nat : nat -> positive **)
+
+  let rec of_succ_nat = function
+  | O -> XH
+  | S x -> succ (of_succ_nat x)
+
+  (** val eq_dec : positive -> positive -> bool **)
+
+  let rec eq_dec p x0 =
+    match p with
+    | XI p0 -> (match x0 with
+                | XI p1 -> eq_dec p0 p1
+                | _ -> false)
+    | XO p0 -> (match x0 with
+                | XO p1 -> eq_dec p0 p1
+                | _ -> false)
+    | XH -> (match x0 with
+             | XH -> true
+             | _ -> false)
  end
 
 module N =
  struct
+  (** val succ_double : n -> n **)
+
+  let succ_double = function
+  | N0 -> Npos XH
+  | Npos p -> Npos (XI p)
+
+  (** val double : n -> n **)
+
+  let double = function
+  | N0 -> N0
+  | Npos p -> Npos (XO p)
+
   (** val add : n -> n -> n **)
 
   let add n0 m =
@@ -108,7 +432,20 @@ module N =
     | N0 -> m
     | Npos p -> (match m with
                  | N0 -> n0
-                 | Npos q -> Npos (Pos.add p q))
+                 | Npos q -> Npos (Coq_Pos.add p q))
+
+  (** val sub : n -> n -> n **)
+
+  let sub n0 m =
+    match n0 with
+    | N0 -> N0
+    | Npos n' ->
+      (match m with
+       | N0 -> n0
+       | Npos m' ->
+         (match Coq_Pos.sub_mask n' m' with
+          | Coq_Pos.IsPos p -> Npos p
+          | _ -> N0))
 
   (** val mul : n -> n -> n **)
 
@@ -117,7 +454,18 @@ module N =
     | N0 -> N0
     | Npos p -> (match m with
                  | N0 -> N0
-                 | Npos q -> Npos (Pos.mul p q))
+                 | Npos q -> Npos (Coq_Pos.mul p q))
+
+  (** val compare : n -> n -> comparison **)
+
+  let compare n0 m =
+    match n0 with
+    | N0 -> (match m with
+             | N0 -> Eq
+             | Npos _ -> Lt)
+    | Npos n' -> (match m with
+                  | N0 -> Gt
+                  | Npos m' -> Coq_Pos.compare n' m')
 
   (** val eqb : n -> n -> bool **)
 
@@ -128,7 +476,88 @@ module N =
              | Npos _ -> false)
     | Npos p -> (match m with
                  | N0 -> false
-                 | Npos q -> Pos.eqb p q)
+                 | Npos q -> Coq_Pos.eqb p q)
+
+  (** val leb : n -> n -> bool **)
+
+  let leb x y =
+    match compare x y with
+    | Gt -> false
+    | _ -> true
+
+  (** val ltb : n -> n -> bool **)
+
+  let ltb x y =
+    match compare x y with
+    | Lt -> true
+    | _ -> false
+
+  (** val size : n -> n **)
+
+  let size = function
+  | N0 -> N0
+  | Npos p -> Npos (Coq_Pos.size p)
+
+  (** val pos_div_eucl : positive -> n -> n * n **)
+
+  let rec pos_div_eucl a b0 =
+    match a with
+    | XI a' ->
+      let (q, r) = pos_div_eucl a' b0 in
+      let r' = succ_double r in
+      if leb b0 r' then ((succ_double q), (sub r' b0)) else ((double q), r')
+    | XO a' ->
+      let (q, r) = pos_div_eucl a' b0 in
+      let r' = double r in
+      if leb b0 r' then ((succ_double q), (sub r' b0)) else ((double q), r')
+    | XH ->
+      (match b0 with
+       | N0 -> (N0, (Npos XH))
+       | Npos p -> (match p with
+                    | XH -> ((Npos XH), N0)
+                    | _ -> (N0, (Npos XH))))
+
+  (** val div_eucl : n -> n -> n * n **)
+
+  let div_eucl a b0 =
+    match a with
+    | N0 -> (N0, N0)
+    | Npos na -> (match b0 with
+                  | N0 -> (N0, a)
+                  | Npos _ -> pos_div_eucl na b0)
+
+  (** val div : n -> n -> n **)
+
+  let div a b0 =
+    fst (div_eucl a b0)
+
+  (** val modulo : n -> n -> n **)
+
+  let modulo a b0 =
+    snd (div_eucl a b0)
+
+  (** val to_nat : n -> nat **)
+
+  let to_nat = function
+  | N0 -> O
+  | Npos p -> Coq_Pos.to_nat p
+
+  (** val of_nat : nat -> n **)
+
+  let of_nat = function
+  | O -> N0
+  | S n' -> Npos (Coq_Pos.of_succ_nat n')
+
+  (** val eq_dec : n -> n -> bool **)
+
+  let eq_dec n0 m =
+    match n0 with
+    | N0 -> (match m with
+             | N0 -> true
+             | Npos _ -> false)
+    | Npos p -> (match m with
+                 | N0 -> false
+                 | Npos p0 -> Coq_Pos.eq_dec p p0)
  end
 
 type ascii =
@@ -147,6 +576,147 @@ let n_of_ascii = function
 | Ascii (a0, a1, a2, a3, a4, a5, a6, a7) ->
   n_of_digits
     (a0 :: (a1 :: (a2 :: (a3 :: (a4 :: (a5 :: (a6 :: (a7 :: []))))))))
+
+module Z =
+ struct
+  (** val double : z -> z **)
+
+  let double = function
+  | Z0 -> Z0
+  | Zpos p -> Zpos (XO p)
+  | Zneg p -> Zneg (XO p)
+
+  (** val succ_double : z -> z **)
+
+  let succ_double = function
+  | Z0 -> Zpos XH
+  | Zpos p -> Zpos (XI p)
+  | Zneg p -> Zneg (Coq_Pos.pred_double p)
+
+  (** val pred_double : z -> z **)
+
+  let pred_double = function
+  | Z0 -> Zneg XH
+  | Zpos p -> Zpos (Coq_Pos.pred_double p)
+  | Zneg p -> Zneg (XI p)
+
+  (** val pos_sub : positive -> positive -> z **)
+
+  let rec pos_sub x y =
+    match x with
+    | XI p ->
+      (match y with
+       | XI q -> double (pos_sub p q)
+       | XO q -> succ_double (pos_sub p q)
+       | XH -> Zpos (XO p))
+    | XO p ->
+      (match y with
+       | XI q -> pred_double (pos_sub p q)
+       | XO q -> double (pos_sub p q)
+       | XH -> Zpos (Coq_Pos.pred_double p))
+    | XH ->
+      (match y with
+       | XI q -> Zneg (XO q)
+       | XO q -> Zneg (Coq_Pos.pred_double q)
+       | XH -> Z0)
+
+  (** val add : z -> z -> z **)
+
+  let add x y =
+    match x with
+    | Z0 -> y
+    | Zpos x' ->
+      (match y with
+       | Z0 -> x
+       | Zpos y' -> Zpos (Coq_Pos.add x' y')
+       | Zneg y' -> pos_sub x' y')
+    | Zneg x' ->
+      (match y with
+       | Z0 -> x
+       | Zpos y' -> pos_sub y' x'
+       | Zneg y' -> Zneg (Coq_Pos.add x' y'))
+
+  (** val opp : z -> z **)
+
+  let opp = function
+  | Z0 -> Z0
+  | Zpos x0 -> Zneg x0
+  | Zneg x0 -> Zpos x0
+
+  (** val sub : z -> z -> z **)
+
+  let sub m n0 =
+    add m (opp n0)
+
+  (** val compare : z -> z -> comparison **)
+
+  let compare x y =
+    match x with
+    | Z0 -> (match y with
+             | Z0 -> Eq
+             | Zpos _ -> Lt
+             | Zneg _ -> Gt)
+    | Zpos x' -> (match y with
+                  | Zpos y' -> Coq_Pos.compare x' y'
+                  | _ -> Gt)
+    | Zneg x' ->
+      (match y with
+       | Zneg y' -> compOpp (Coq_Pos.compare x' y')
+       | _ -> Lt)
+
+  (** val leb : z -> z -> bool **)
+
+  let leb x y =
+    match compare x y with
+    | Gt -> false
+    | _ -> true
+
+  (** val ltb : z -> z -> bool **)
+
+  let ltb x y =
+    match compare x y with
+    | Lt -> true
+    | _ -> false
+
+  (** val eqb : z -> z -> bool **)
+
+  let eqb x y =
+    match x with
+    | Z0 -> (match y with
+             | Z0 -> true
+             | _ -> false)
+    | Zpos p -> (match y with
+                 | Zpos q -> Coq_Pos.eqb p q
+                 | _ -> false)
+    | Zneg p -> (match y with
+                 | Zneg q -> Coq_Pos.eqb p q
+                 | _ -> false)
+
+  (** val abs_N : z -> n **)
+
+  let abs_N = function
+  | Z0 -> N0
+  | Zpos p -> Npos p
+  | Zneg p -> Npos p
+
+  (** val to_nat : z -> nat **)
+
+  let to_nat = function
+  | Zpos p -> Coq_Pos.to_nat p
+  | _ -> O
+
+  (** val of_nat : nat -> z **)
+
+  let of_nat = function
+  | O -> Z0
+  | S n1 -> Zpos (Coq_Pos.of_succ_nat n1)
+
+  (** val of_N : n -> z **)
+
+  let of_N = function
+  | N0 -> Z0
+  | Npos p -> Zpos p
+ end
 
 type string =
 | EmptyString
@@ -172,6 +742,49 @@ let rec eqb_str a b0 =
      | [] -> false
      | y :: b' -> (&&) (N.eqb x y) (eqb_str a' b'))
 
+(** val str_eq_dec : str -> str -> bool **)
+
+let rec str_eq_dec l x =
+  match l with
+  | [] -> (match x with
+           | [] -> true
+           | _ :: _ -> false)
+  | y :: l0 ->
+    (match x with
+     | [] -> false
+     | a :: l1 -> if N.eq_dec y a then str_eq_dec l0 l1 else false)
+
+(** val prefixb : str -> str -> bool **)
+
+let rec prefixb p s =
+  match p with
+  | [] -> true
+  | x :: p' ->
+    (match s with
+     | [] -> false
+     | y :: s' -> (&&) (N.eqb x y) (prefixb p' s'))
+
+(** val suffixb : str -> str -> bool **)
+
+let suffixb suf s =
+  prefixb (rev suf) (rev s)
+
+(** val index_byte : n -> str -> nat option **)
+
+let rec index_byte c = function
+| [] -> None
+| x :: s' ->
+  if N.eqb x c then Some O else option_map (fun x0 -> S x0) (index_byte c s')
+
+(** val last_index_byte : n -> str -> nat option **)
+
+let rec last_index_byte c = function
+| [] -> None
+| x :: s' ->
+  (match last_index_byte c s' with
+   | Some i -> Some (S i)
+   | None -> if N.eqb x c then Some O else None)
+
 (** val split_on : n -> str -> str list **)
 
 let rec split_on sep = function
@@ -183,81 +796,2097 @@ let rec split_on sep = function
         | [] -> (c :: []) :: []
         | w :: ws -> (c :: w) :: ws)
 
-(** val c_semi : n **)
+(** val join : str -> str list -> str **)
 
-let c_semi =
-  Npos (XI (XI (XO (XI (XI XH)))))
+let rec join sep = function
+| [] -> []
+| x :: l' -> (match l' with
+              | [] -> x
+              | _ :: _ -> app x (app sep (join sep l')))
+
+(** val ltb_str : str -> str -> bool **)
+
+let rec ltb_str a b0 =
+  match a with
+  | [] -> (match b0 with
+           | [] -> false
+           | _ :: _ -> true)
+  | x :: a' ->
+    (match b0 with
+     | [] -> false
+     | y :: b' -> (||) (N.ltb x y) ((&&) (N.eqb x y) (ltb_str a' b')))
+
+(** val leb_str : str -> str -> bool **)
+
+let leb_str a b0 =
+  negb (ltb_str b0 a)
+
+(** val c_slash : n **)
+
+let c_slash =
+  Npos (XI (XI (XI (XI (XO XH)))))
+
+(** val c_bslash : n **)
+
+let c_bslash =
+  Npos (XO (XO (XI (XI (XI (XO XH))))))
+
+(** val c_lbr : n **)
+
+let c_lbr =
+  Npos (XI (XI (XO (XI (XI (XO XH))))))
+
+(** val c_rbr : n **)
+
+let c_rbr =
+  Npos (XI (XO (XI (XI (XI (XO XH))))))
+
+(** val c_eq : n **)
+
+let c_eq =
+  Npos (XI (XO (XI (XI (XI XH)))))
 
 (** val c_comma : n **)
 
 let c_comma =
   Npos (XO (XO (XI (XI (XO XH)))))
 
-type md = { md_name : str; md_pref : str; md_groups : str }
+(** val c_star : n **)
 
-(** val nonempty : str -> bool **)
+let c_star =
+  Npos (XO (XI (XO (XI (XO XH)))))
 
-let nonempty s =
-  negb (eqb_str s [])
+(** val insert_sorted :
+    ('a1 -> 'a1 -> bool) -> 'a1 -> 'a1 list -> 'a1 list **)
 
-(** val has_identity : md -> bool **)
+let rec insert_sorted leb0 x l = match l with
+| [] -> x :: []
+| y :: l' -> if leb0 x y then x :: l else y :: (insert_sorted leb0 x l')
 
-let has_identity m =
-  (||) ((||) (nonempty m.md_name) (nonempty m.md_pref)) (nonempty m.md_groups)
+(** val isort : ('a1 -> 'a1 -> bool) -> 'a1 list -> 'a1 list **)
 
-(** val temporary_evaluate : str -> str -> bool **)
+let rec isort leb0 = function
+| [] -> []
+| x :: l' -> insert_sorted leb0 x (isort leb0 l')
 
-let temporary_evaluate admin groups =
-  existsb (fun g ->
-    (&&) (nonempty g)
-      (existsb (fun ag -> eqb_str g ag) (split_on c_comma admin)))
-    (split_on c_semi groups)
+type 'a outcome =
+| Ok of 'a
+| Err of n
+| Panic of n
 
-(** val set_gate : str -> md -> bool **)
+(** val bind : 'a1 outcome -> ('a1 -> 'a2 outcome) -> 'a2 outcome **)
 
-let set_gate admin m =
-  if has_identity m then temporary_evaluate admin m.md_groups else true
+let bind o k =
+  match o with
+  | Ok a -> k a
+  | Err c -> Err c
+  | Panic w -> Panic w
 
-(** val get_groups : md -> str list **)
+(** val is_panic : 'a1 outcome -> bool **)
 
-let get_groups m =
-  if nonempty m.md_name then split_on c_semi m.md_groups else []
+let is_panic = function
+| Panic _ -> true
+| _ -> false
 
-(** val default_roc : str **)
+(** val w_slice : n **)
 
-let default_roc =
-  b (String ((Ascii (true, false, false, false, false, false, true, false)),
-    (String ((Ascii (true, false, true, false, false, true, true, false)),
-    (String ((Ascii (false, false, true, false, true, true, true, false)),
-    (String ((Ascii (false, false, false, true, false, true, true, false)),
-    (String ((Ascii (true, false, true, false, false, true, true, false)),
-    (String ((Ascii (false, true, false, false, true, true, true, false)),
-    (String ((Ascii (false, true, false, false, true, false, true, false)),
-    (String ((Ascii (true, true, true, true, false, false, true, false)),
-    (String ((Ascii (true, true, false, false, false, false, true, false)),
+let w_slice =
+  Npos XH
+
+(** val w_index : n **)
+
+let w_index =
+  Npos (XO XH)
+
+(** val w_nil : n **)
+
+let w_nil =
+  Npos (XI XH)
+
+(** val w_regexp : n **)
+
+let w_regexp =
+  Npos (XO (XO XH))
+
+(** val w_fuel : n **)
+
+let w_fuel =
+  Npos (XI (XI XH))
+
+(** val c_unknown : n **)
+
+let c_unknown =
+  Npos (XO XH)
+
+(** val c_invalid : n **)
+
+let c_invalid =
+  Npos (XI XH)
+
+(** val c_notfound : n **)
+
+let c_notfound =
+  Npos (XI (XO XH))
+
+(** val c_internal : n **)
+
+let c_internal =
+  Npos (XI (XO (XI XH)))
+
+(** val c_some : n **)
+
+let c_some =
+  N0
+
+(** val zlen : str -> z **)
+
+let zlen s =
+  Z.of_nat (length s)
+
+(** val slice : str -> z -> z -> str outcome **)
+
+let slice s lo hi =
+  if (&&) ((&&) (Z.leb Z0 lo) (Z.leb lo hi)) (Z.leb hi (zlen s))
+  then Ok (firstn (Z.to_nat (Z.sub hi lo)) (skipn (Z.to_nat lo) s))
+  else Panic w_slice
+
+(** val zindex : n -> str -> z **)
+
+let zindex c s =
+  match index_byte c s with
+  | Some i -> Z.of_nat i
+  | None -> Zneg XH
+
+(** val zlast_index : n -> str -> z **)
+
+let zlast_index c s =
+  match last_index_byte c s with
+  | Some i -> Z.of_nat i
+  | None -> Zneg XH
+
+(** val has_byte : n -> str -> bool **)
+
+let has_byte c s =
+  existsb (fun x -> N.eqb x c) s
+
+(** val replace_first : str -> str -> str -> str **)
+
+let rec replace_first old new0 s =
+  if prefixb old s
+  then app new0 (skipn (length old) s)
+  else (match s with
+        | [] -> []
+        | c :: s' -> c :: (replace_first old new0 s'))
+
+(** val replace_all_aux : str -> str -> nat -> str -> str **)
+
+let rec replace_all_aux old new0 skip s = match s with
+| [] -> []
+| c :: s' ->
+  (match skip with
+   | O ->
+     if prefixb old s
+     then app new0 (replace_all_aux old new0 (sub (length old) (S O)) s')
+     else c :: (replace_all_aux old new0 O s')
+   | S k -> replace_all_aux old new0 k s')
+
+(** val replace_all : str -> str -> str -> str **)
+
+let replace_all old new0 s =
+  replace_all_aux old new0 O s
+
+(** val c_nl : n **)
+
+let c_nl =
+  Npos (XO (XI (XO XH)))
+
+type elem = { e_name : str; e_keys : (str * str) list }
+
+type gpath = { p_target : str; p_elem : elem option list; p_element : str list }
+
+type scalar =
+| SStr of str
+| SAscii of str
+| SInt of z
+| SUint of n
+| SBool of bool
+| SBytes of str
+| SDecimal of (z * n) option
+| SFloat of bool
+| SOther
+
+type tval =
+| TScalar of scalar
+| TJson of str
+| TLeaflist of scalar option list
+
+type plugin_answer =
+| PErr of n
+| PPaths of str list
+
+type update = { u_path : gpath option; u_val : tval option;
+                u_plugin : plugin_answer }
+
+type ext_payload =
+| XBad
+| XStrategy of bool
+| XOverrides of (str * (str * str) option) list
+
+type extension =
+| ERegistered of (n * ext_payload) option
+| EOther
+
+type rwpath = { rw_path : str; rw_iskey : bool; rw_attr : str }
+
+type plugin = { pl_type : str; pl_version : str; pl_rw : rwpath list }
+
+type target = { tg_id : str; tg_type : str; tg_version : str }
+
+type nval = { nv_type : n; nv_blen : n; nv_opts : z list; nv_str : str option }
+
+type stored = { sv_path : str; sv_deleted : bool; sv_val : nval }
+
+type config = { cf_id : str; cf_values : stored list }
+
+type env = { en_topo : target list; en_plugins : plugin list;
+             en_size_limit : n }
+
+type state = config list
+
+(** val pair_leb : (str * str) -> (str * str) -> bool **)
+
+let pair_leb a b0 =
+  leb_str (fst a) (fst b0)
+
+(** val safe_string : n -> str -> str **)
+
+let safe_string esc s =
+  flat_map (fun c ->
+    if (||) (N.eqb c esc) (N.eqb c c_bslash)
+    then c_bslash :: (c :: [])
+    else c :: []) s
+
+(** val str_keys : (str * str) list -> str **)
+
+let str_keys ks =
+  flat_map (fun kv ->
+    app (c_lbr :: [])
+      (app (fst kv)
+        (app (c_eq :: []) (app (safe_string c_rbr (snd kv)) (c_rbr :: [])))))
+    (isort pair_leb ks)
+
+(** val str_path_elem : elem option list -> str outcome **)
+
+let rec str_path_elem = function
+| [] -> Ok []
+| o :: es' ->
+  (match o with
+   | Some e ->
+     bind (str_path_elem es') (fun rest -> Ok
+       (app (c_slash :: [])
+         (app (safe_string c_slash e.e_name) (app (str_keys e.e_keys) rest))))
+   | None -> Panic w_nil)
+
+(** val root : str **)
+
+let root =
+  c_slash :: []
+
+(** val str_path : gpath option -> str outcome **)
+
+let str_path = function
+| Some p0 ->
+  (match p0.p_elem with
+   | [] ->
+     (match p0.p_element with
+      | [] -> Ok root
+      | _ :: _ -> Ok (app (c_slash :: []) (join (c_slash :: []) p0.p_element)))
+   | _ :: _ -> str_path_elem p0.p_elem)
+| None -> Ok root
+
+(** val index_matches_aux : str option -> str -> str list **)
+
+let rec index_matches_aux cur = function
+| [] -> []
+| c :: s' ->
+  (match cur with
+   | Some acc ->
+     if N.eqb c c_rbr
+     then (app (c_lbr :: []) (app (rev acc) (c_rbr :: []))) :: (index_matches_aux
+                                                                 None s')
+     else if N.eqb c c_nl
+          then index_matches_aux None s'
+          else index_matches_aux (Some (c :: acc)) s'
+   | None ->
+     if N.eqb c c_lbr
+     then index_matches_aux (Some []) s'
+     else index_matches_aux None s')
+
+(** val index_matches : str -> str list **)
+
+let index_matches s =
+  index_matches_aux None s
+
+(** val remove_indices : str -> str **)
+
+let remove_indices path =
+  fold_left (fun p m -> replace_first m [] p) (index_matches path) path
+
+(** val anonymize_match : str -> str **)
+
+let anonymize_match m =
+  join (c_eq :: [])
+    (app (removelast (split_on c_eq m)) ((c_star :: (c_rbr :: [])) :: []))
+
+(** val anonymize_indices : str -> str **)
+
+let anonymize_indices path =
+  fold_left (fun p m -> replace_first m (anonymize_match m) p)
+    (index_matches path) path
+
+(** val extract_one : str -> (str * str) outcome **)
+
+let extract_one m =
+  let eq = zlast_index c_eq m in
+  if Z.ltb eq Z0
+  then bind (slice m (Zpos XH) (Z.sub (zlen m) (Zpos XH))) (fun n0 -> Ok (n0,
+         []))
+  else bind (slice m (Zpos XH) eq) (fun n0 ->
+         bind (slice m (Z.add eq (Zpos XH)) (Z.sub (zlen m) (Zpos XH)))
+           (fun v -> Ok (n0, v)))
+
+(** val extract_all : str list -> (str * str) list outcome **)
+
+let rec extract_all = function
+| [] -> Ok []
+| m :: ms' ->
+  bind (extract_one m) (fun nv ->
+    bind (extract_all ms') (fun rest -> Ok (nv :: rest)))
+
+(** val extract_index_names : str -> (str * str) list outcome **)
+
+let extract_index_names path =
+  extract_all (index_matches path)
+
+(** val last_elem : 'a1 list -> 'a1 outcome **)
+
+let last_elem l =
+  match rev l with
+  | [] -> Panic w_index
+  | x :: _ -> Ok x
+
+(** val lookup_rw : str -> rwpath list -> rwpath option **)
+
+let lookup_rw p rw =
+  find (fun r -> eqb_str r.rw_path p) rw
+
+(** val find_path_from_model :
+    str -> rwpath list -> bool -> (bool * rwpath option) outcome **)
+
+let find_path_from_model path rw exact =
+  let search = remove_indices path in
+  (match lookup_rw (anonymize_indices path) rw with
+   | Some r -> Ok (true, (Some r))
+   | None ->
+     if exact
+     then Err c_internal
+     else bind
+            (if suffixb (c_rbr :: []) path
+             then bind (extract_index_names path) (fun idx ->
+                    match idx with
+                    | [] -> Ok search
+                    | _ :: _ ->
+                      bind (last_elem idx) (fun l -> Ok
+                        (app search (app (c_slash :: []) (fst l)))))
+             else Ok search) (fun search' ->
+            if existsb (fun r -> prefixb search' (remove_indices r.rw_path))
+                 rw
+            then Ok (false, None)
+            else Err c_invalid))
+
+(** val is_alnum : n -> bool **)
+
+let is_alnum c =
+  (||)
+    ((||)
+      ((&&) (N.leb (Npos (XO (XO (XO (XO (XI XH)))))) c)
+        (N.leb c (Npos (XI (XO (XO (XI (XI XH))))))))
+      ((&&) (N.leb (Npos (XI (XO (XO (XO (XO (XO XH))))))) c)
+        (N.leb c (Npos (XO (XI (XO (XI (XI (XO XH))))))))))
+    ((&&) (N.leb (Npos (XI (XO (XO (XO (XO (XI XH))))))) c)
+      (N.leb c (Npos (XO (XI (XO (XI (XI (XI XH)))))))))
+
+(** val index_char_ok : n -> bool **)
+
+let index_char_ok c =
+  (||)
+    ((||)
+      ((||) ((||) (is_alnum c) (N.eqb c (Npos (XO (XI (XO (XI (XO XH))))))))
+        (N.eqb c (Npos (XI (XO (XI (XI (XO XH))))))))
+      (N.eqb c (Npos (XO (XI (XI (XI (XO XH))))))))
+    (N.eqb c (Npos (XI (XI (XI (XI (XI (XO XH))))))))
+
+(** val index_value_ok : str -> bool **)
+
+let index_value_ok v =
+  (&&) (negb (eqb_str v [])) (forallb index_char_ok v)
+
+(** val get_parent_path : str -> str outcome **)
+
+let get_parent_path path =
+  let i = zlast_index c_slash path in
+  if Z.leb i Z0 then Ok [] else slice path Z0 i
+
+(** val check_key_value : str -> rwpath -> nval -> unit outcome **)
+
+let check_key_value path r v =
+  bind (extract_index_names path) (fun idx ->
+    match idx with
+    | [] -> Ok ()
+    | _ :: _ ->
+      if negb (forallb (fun nv -> index_value_ok (snd nv)) idx)
+      then Err c_invalid
+      else if negb r.rw_iskey
+           then Ok ()
+           else bind (get_parent_path path) (fun parent ->
+                  bind
+                    (slice parent
+                      (Z.add (zlast_index c_slash parent) (Zpos XH))
+                      (zlen parent)) (fun last_seg ->
+                    bind (extract_index_names last_seg) (fun pidx ->
+                      if existsb (fun nv ->
+                           (&&) (eqb_str r.rw_attr (fst nv))
+                             (match v.nv_str with
+                              | Some s -> eqb_str (snd nv) s
+                              | None -> false)) pidx
+                      then Ok ()
+                      else Err c_invalid))))
+
+(** val path_char_ok : n -> bool **)
+
+let path_char_ok c =
+  (||)
+    ((||)
+      ((||)
+        ((||)
+          ((||)
+            ((||)
+              ((||) (is_alnum c) (N.eqb c (Npos (XO (XI (XO (XI (XI XH))))))))
+              (N.eqb c (Npos (XI (XO (XI (XI (XI XH))))))))
+            (N.eqb c (Npos (XI (XO (XI (XI (XO XH))))))))
+          (N.eqb c (Npos (XO (XI (XI (XI (XO XH))))))))
+        (N.eqb c (Npos (XI (XI (XI (XI (XI (XO XH)))))))))
+      (N.eqb c (Npos (XI (XI (XO (XI (XI (XO XH)))))))))
+    (N.eqb c (Npos (XI (XO (XI (XI (XI (XO XH))))))))
+
+(** val is_path_valid : str -> bool **)
+
+let is_path_valid = function
+| [] -> false
+| c :: rest ->
+  (&&) (N.eqb c c_slash)
+    (forallb (fun seg ->
+      (&&) (negb (eqb_str seg [])) (forallb path_char_ok seg))
+      (split_on c_slash rest))
+
+(** val json_base_path : str -> str outcome **)
+
+let json_base_path path =
+  if (&&) (Z.ltb (Zpos XH) (zlen path)) (suffixb (c_slash :: []) path)
+  then slice path Z0 (Z.sub (zlen path) (Zpos XH))
+  else Ok path
+
+(** val mag_len : n -> n **)
+
+let mag_len n0 =
+  N.div (N.add (N.size n0) (Npos (XI (XI XH)))) (Npos (XO (XO (XO XH))))
+
+(** val zsign_opt : z -> z **)
+
+let zsign_opt z0 =
+  if Z.ltb z0 Z0 then Zpos XH else Z0
+
+(** val dec_digits_pos : nat -> n -> str -> str **)
+
+let rec dec_digits_pos fuel n0 acc =
+  match fuel with
+  | O -> acc
+  | S f ->
+    let acc' =
+      (N.add (Npos (XO (XO (XO (XO (XI XH))))))
+        (N.modulo n0 (Npos (XO (XI (XO XH)))))) :: acc
+    in
+    if N.ltb n0 (Npos (XO (XI (XO XH))))
+    then acc'
+    else dec_digits_pos f (N.div n0 (Npos (XO (XI (XO XH))))) acc'
+
+(** val dec_n : n -> str **)
+
+let dec_n n0 =
+  dec_digits_pos (S (N.to_nat (N.size n0))) n0 []
+
+(** val dec_z : z -> str **)
+
+let dec_z z0 =
+  if Z.ltb z0 Z0
+  then (Npos (XI (XO (XI (XI (XO XH)))))) :: (dec_n (Z.abs_N z0))
+  else dec_n (Z.abs_N z0)
+
+(** val vt_string : n **)
+
+let vt_string =
+  Npos XH
+
+(** val vt_int : n **)
+
+let vt_int =
+  Npos (XO XH)
+
+(** val vt_uint : n **)
+
+let vt_uint =
+  Npos (XI XH)
+
+(** val vt_bool : n **)
+
+let vt_bool =
+  Npos (XO (XO XH))
+
+(** val vt_decimal : n **)
+
+let vt_decimal =
+  Npos (XI (XO XH))
+
+(** val vt_float : n **)
+
+let vt_float =
+  Npos (XO (XI XH))
+
+(** val vt_bytes : n **)
+
+let vt_bytes =
+  Npos (XI (XI XH))
+
+(** val vt_ll_string : n **)
+
+let vt_ll_string =
+  Npos (XO (XO (XO XH)))
+
+(** val vt_ll_int : n **)
+
+let vt_ll_int =
+  Npos (XI (XO (XO XH)))
+
+(** val vt_ll_uint : n **)
+
+let vt_ll_uint =
+  Npos (XO (XI (XO XH)))
+
+(** val vt_ll_bool : n **)
+
+let vt_ll_bool =
+  Npos (XI (XI (XO XH)))
+
+(** val vt_ll_decimal : n **)
+
+let vt_ll_decimal =
+  Npos (XO (XO (XI XH)))
+
+(** val vt_ll_float : n **)
+
+let vt_ll_float =
+  Npos (XI (XO (XI XH)))
+
+(** val vt_ll_bytes : n **)
+
+let vt_ll_bytes =
+  Npos (XO (XI (XI XH)))
+
+(** val lenN : str -> n **)
+
+let lenN s =
+  N.of_nat (length s)
+
+(** val sumN : n list -> n **)
+
+let sumN l =
+  fold_right N.add N0 l
+
+type ll_acc = { la_str : str list; la_int : z list; la_uint : n list;
+                la_bool : bool list; la_bytes : str list; la_dec : z list;
+                la_float : nat }
+
+(** val la_empty : ll_acc **)
+
+let la_empty =
+  { la_str = []; la_int = []; la_uint = []; la_bool = []; la_bytes = [];
+    la_dec = []; la_float = O }
+
+(** val leaf_list_collect : scalar option list -> ll_acc -> ll_acc outcome **)
+
+let rec leaf_list_collect l a =
+  match l with
+  | [] -> Ok a
+  | o :: l' ->
+    (match o with
+     | Some s ->
+       (match s with
+        | SStr x ->
+          leaf_list_collect l' { la_str = (app a.la_str (x :: [])); la_int =
+            a.la_int; la_uint = a.la_uint; la_bool = a.la_bool; la_bytes =
+            a.la_bytes; la_dec = a.la_dec; la_float = a.la_float }
+        | SAscii x ->
+          leaf_list_collect l' { la_str = (app a.la_str (x :: [])); la_int =
+            a.la_int; la_uint = a.la_uint; la_bool = a.la_bool; la_bytes =
+            a.la_bytes; la_dec = a.la_dec; la_float = a.la_float }
+        | SInt z0 ->
+          leaf_list_collect l' { la_str = a.la_str; la_int =
+            (app a.la_int (z0 :: [])); la_uint = a.la_uint; la_bool =
+            a.la_bool; la_bytes = a.la_bytes; la_dec = a.la_dec; la_float =
+            a.la_float }
+        | SUint n0 ->
+          leaf_list_collect l' { la_str = a.la_str; la_int = a.la_int;
+            la_uint = (app a.la_uint (n0 :: [])); la_bool = a.la_bool;
+            la_bytes = a.la_bytes; la_dec = a.la_dec; la_float = a.la_float }
+        | SBool b0 ->
+          leaf_list_collect l' { la_str = a.la_str; la_int = a.la_int;
+            la_uint = a.la_uint; la_bool = (app a.la_bool (b0 :: []));
+            la_bytes = a.la_bytes; la_dec = a.la_dec; la_float = a.la_float }
+        | SBytes b0 ->
+          leaf_list_collect l' { la_str = a.la_str; la_int = a.la_int;
+            la_uint = a.la_uint; la_bool = a.la_bool; la_bytes =
+            (app a.la_bytes (b0 :: [])); la_dec = a.la_dec; la_float =
+            a.la_float }
+        | SDecimal d0 ->
+          (match d0 with
+           | Some p ->
+             let (d, _) = p in
+             leaf_list_collect l' { la_str = a.la_str; la_int = a.la_int;
+               la_uint = a.la_uint; la_bool = a.la_bool; la_bytes =
+               a.la_bytes; la_dec = (app a.la_dec (d :: [])); la_float =
+               a.la_float }
+           | None -> Panic w_nil)
+        | SFloat _ ->
+          leaf_list_collect l' { la_str = a.la_str; la_int = a.la_int;
+            la_uint = a.la_uint; la_bool = a.la_bool; la_bytes = a.la_bytes;
+            la_dec = a.la_dec; la_float = (S a.la_float) }
+        | SOther -> Err c_internal)
+     | None -> Ok a)
+
+(** val has_nil_elem : scalar option list -> bool **)
+
+let has_nil_elem l =
+  existsb (fun o -> match o with
+                    | Some _ -> false
+                    | None -> true) l
+
+(** val mk_nval : n -> n -> z list -> str option -> nval **)
+
+let mk_nval t blen opts s =
+  { nv_type = t; nv_blen = blen; nv_opts = opts; nv_str = s }
+
+(** val handle_leaf_list : scalar option list -> nval outcome **)
+
+let handle_leaf_list l =
+  if has_nil_elem l
+  then Err c_internal
+  else bind (leaf_list_collect l la_empty) (fun a ->
+         match a.la_str with
+         | [] ->
+           (match a.la_int with
+            | [] ->
+              (match a.la_uint with
+               | [] ->
+                 (match a.la_bool with
+                  | [] ->
+                    (match a.la_bytes with
+                     | [] ->
+                       (match a.la_dec with
+                        | [] ->
+                          (match a.la_float with
+                           | O -> Err c_internal
+                           | S n0 ->
+                             Ok
+                               (mk_nval vt_ll_float
+                                 (N.mul (Npos (XO (XO (XO XH))))
+                                   (N.of_nat (S n0))) [] None))
+                        | _ :: _ ->
+                          Ok
+                            (mk_nval vt_ll_decimal
+                              (sumN
+                                (map (fun z0 -> mag_len (Z.abs_N z0))
+                                  a.la_dec))
+                              (Z0 :: (flat_map (fun z0 ->
+                                       (Z.of_N (mag_len (Z.abs_N z0))) :: (
+                                       (zsign_opt z0) :: [])) a.la_dec)) None))
+                     | _ :: _ ->
+                       Ok
+                         (mk_nval vt_ll_bytes (sumN (map lenN a.la_bytes))
+                           (map (fun b0 -> Z.of_N (lenN b0)) a.la_bytes) None))
+                  | _ :: _ ->
+                    Ok
+                      (mk_nval vt_ll_bool (N.of_nat (length a.la_bool)) []
+                        None))
+               | _ :: _ ->
+                 Ok
+                   (mk_nval vt_ll_uint (sumN (map mag_len a.la_uint)) ((Zpos
+                     (XO (XO (XO (XO (XO
+                     XH)))))) :: (map (fun n0 -> Z.of_N (mag_len n0))
+                                   a.la_uint)) None))
+            | _ :: _ ->
+              Ok
+                (mk_nval vt_ll_int
+                  (sumN (map (fun z0 -> mag_len (Z.abs_N z0)) a.la_int))
+                  ((Zpos (XO (XO (XO (XO (XO
+                  XH)))))) :: (flat_map (fun z0 ->
+                                (Z.of_N (mag_len (Z.abs_N z0))) :: ((zsign_opt
+                                                                    z0) :: []))
+                                a.la_int)) None))
+         | _ :: _ ->
+           Ok
+             (mk_nval vt_ll_string
+               (N.add (sumN (map lenN a.la_str))
+                 (N.of_nat (sub (length a.la_str) (S O)))) [] (Some
+               (join (c_comma :: []) a.la_str))))
+
+(** val to_native : tval option -> nval outcome **)
+
+let to_native = function
+| Some t ->
+  (match t with
+   | TScalar s ->
+     (match s with
+      | SStr x -> Ok (mk_nval vt_string (lenN x) [] (Some x))
+      | SAscii x -> Ok (mk_nval vt_string (lenN x) [] (Some x))
+      | SInt z0 ->
+        Ok
+          (mk_nval vt_int (mag_len (Z.abs_N z0)) ((Zpos (XO (XO (XO (XO (XO
+            XH)))))) :: ((zsign_opt z0) :: [])) (Some (dec_z z0)))
+      | SUint n0 ->
+        Ok
+          (mk_nval vt_uint (mag_len n0) ((Zpos (XO (XO (XO (XO (XO
+            XH)))))) :: []) (Some (dec_n n0)))
+      | SBool b0 ->
+        Ok
+          (mk_nval vt_bool (Npos XH) [] (Some
+            (if b0
+             then b (String ((Ascii (false, false, true, false, true, true,
+                    true, false)), (String ((Ascii (false, true, false,
+                    false, true, true, true, false)), (String ((Ascii (true,
+                    false, true, false, true, true, true, false)), (String
+                    ((Ascii (true, false, true, false, false, true, true,
+                    false)), EmptyString))))))))
+             else b (String ((Ascii (false, true, true, false, false, true,
+                    true, false)), (String ((Ascii (true, false, false,
+                    false, false, true, true, false)), (String ((Ascii
+                    (false, false, true, true, false, true, true, false)),
+                    (String ((Ascii (true, true, false, false, true, true,
+                    true, false)), (String ((Ascii (true, false, true, false,
+                    false, true, true, false)), EmptyString)))))))))))))
+      | SBytes b0 ->
+        Ok (mk_nval vt_bytes (lenN b0) ((Z.of_N (lenN b0)) :: []) None)
+      | SDecimal d0 ->
+        (match d0 with
+         | Some p0 ->
+           let (d, p) = p0 in
+           Ok
+           (mk_nval vt_decimal (mag_len (Z.abs_N d))
+             ((Z.of_N
+                (N.modulo p (Npos (XO (XO (XO (XO (XO (XO (XO (XO XH))))))))))) :: (
+             (zsign_opt d) :: [])) None)
+         | None -> Panic w_nil)
+      | SFloat isnan ->
+        if isnan
+        then Err c_internal
+        else Ok (mk_nval vt_float (Npos (XO (XI (XO XH)))) [] None)
+      | SOther -> Err c_internal)
+   | TJson _ -> Err c_internal
+   | TLeaflist l -> handle_leaf_list l)
+| None -> Err c_internal
+
+(** val run_slices : nat -> z list -> z -> z -> unit outcome **)
+
+let rec run_slices step opts pos blen =
+  match opts with
+  | [] -> Ok ()
+  | o :: rest ->
+    if (&&) ((&&) (Z.leb Z0 pos) (Z.leb pos (Z.add pos o)))
+         (Z.leb (Z.add pos o) blen)
+    then (match step with
+          | O -> run_slices step rest (Z.add pos o) blen
+          | S n0 ->
+            (match n0 with
+             | O ->
+               (match rest with
+                | [] -> Ok ()
+                | _ :: rest' -> run_slices step rest' (Z.add pos o) blen)
+             | S _ -> run_slices step rest (Z.add pos o) blen))
+    else Panic w_slice
+
+(** val take_pairs : z list -> z list **)
+
+let rec take_pairs = function
+| [] -> []
+| a :: l ->
+  (match l with
+   | [] -> []
+   | b0 :: rest -> a :: (b0 :: (take_pairs rest)))
+
+(** val ll_bytes_walk : nat -> z -> z -> z list -> unit outcome **)
+
+let rec ll_bytes_walk nbytes i start opts =
+  match nbytes with
+  | O -> Ok ()
+  | S k ->
+    (match opts with
+     | [] -> Panic w_index
+     | vl :: rest ->
+       if Z.eqb (Z.sub i start) vl
+       then ll_bytes_walk k (Z.add i (Zpos XH)) (Z.add start vl) rest
+       else ll_bytes_walk k (Z.add i (Zpos XH)) start opts)
+
+(** val leaf_guard : nval -> unit outcome **)
+
+let leaf_guard v =
+  let t = v.nv_type in
+  if N.eqb t vt_bool
+  then if N.leb (Npos XH) v.nv_blen then Ok () else Panic w_index
+  else if (||) (N.eqb t vt_ll_int) (N.eqb t vt_ll_decimal)
+       then (match v.nv_opts with
+             | [] -> Panic w_index
+             | _ :: rest ->
+               run_slices (S O) (take_pairs rest) Z0 (Z.of_N v.nv_blen))
+       else if N.eqb t vt_ll_uint
+            then (match v.nv_opts with
+                  | [] -> Panic w_index
+                  | _ :: rest -> run_slices O rest Z0 (Z.of_N v.nv_blen))
+            else if N.eqb t vt_ll_bytes
+                 then ll_bytes_walk (N.to_nat v.nv_blen) Z0 Z0 v.nv_opts
+                 else Ok ()
+
+(** val next_token : bool -> bool -> str -> str * str **)
+
+let rec next_token inbr esc s = match s with
+| [] -> ([], [])
+| c :: s' ->
+  if (&&) ((&&) (N.eqb c c_slash) (negb inbr)) (negb esc)
+  then ([], s)
+  else if N.eqb c c_lbr
+       then let inbr' = true in
+            let esc' = false in
+            let (tok0, rest) = next_token inbr' esc' s' in ((c :: tok0), rest)
+       else if N.eqb c c_rbr
+            then let inbr' = if esc then inbr else false in
+                 let esc' = false in
+                 let (tok0, rest) = next_token inbr' esc' s' in
+                 ((c :: tok0), rest)
+            else if N.eqb c c_bslash
+                 then let esc' = negb esc in
+                      let (tok0, rest) = next_token inbr esc' s' in
+                      ((c :: tok0), rest)
+                 else let esc' = false in
+                      let (tok0, rest) = next_token inbr esc' s' in
+                      ((c :: tok0), rest)
+
+(** val strip_slash : str -> str **)
+
+let strip_slash s = match s with
+| [] -> []
+| c :: s' -> if N.eqb c c_slash then s' else s
+
+(** val split_path_aux : nat -> str -> str list **)
+
+let rec split_path_aux fuel s =
+  match fuel with
+  | O -> []
+  | S f ->
+    (match s with
+     | [] -> []
+     | _ :: _ ->
+       let (tok0, rest) = next_token false false s in
+       tok0 :: (split_path_aux f (strip_slash rest)))
+
+(** val split_path : str -> str list **)
+
+let split_path p =
+  split_path_aux (S (length p)) (strip_slash p)
+
+(** val key_loop : nat -> str -> unit outcome **)
+
+let rec key_loop fuel ks =
+  match fuel with
+  | O -> Panic w_fuel
+  | S f ->
+    if has_byte c_eq ks
+    then let b1 = zindex c_lbr ks in
+         let e = zindex c_eq ks in
+         let b2 = zindex c_rbr ks in
+         bind (slice ks (Z.add b1 (Zpos XH)) e) (fun _ ->
+           bind (slice ks (Z.add e (Zpos XH)) b2) (fun _ ->
+             bind (slice ks (Z.add b2 (Zpos XH)) (zlen ks)) (fun ks' ->
+               key_loop f ks')))
+    else Ok ()
+
+(** val tree_guard_aux : nat -> str -> unit outcome **)
+
+let rec tree_guard_aux fuel path =
+  match fuel with
+  | O -> Panic w_fuel
+  | S f ->
+    (match split_path path with
+     | [] -> Panic w_index
+     | e0 :: rest ->
+       (match rest with
+        | [] -> Ok ()
+        | _ :: _ ->
+          let refine = join (c_slash :: []) rest in
+          if has_byte c_eq e0
+          then if eqb_str refine []
+               then Ok ()
+               else let b0 = zindex c_lbr e0 in
+                    bind (slice e0 Z0 b0) (fun _ ->
+                      bind (slice e0 b0 (zlen e0)) (fun ks ->
+                        bind (key_loop (S (length ks)) ks) (fun _ ->
+                          tree_guard_aux f (c_slash :: refine))))
+          else if eqb_str refine []
+               then Ok ()
+               else tree_guard_aux f (c_slash :: refine)))
+
+(** val tree_guard : str -> unit outcome **)
+
+let tree_guard path =
+  tree_guard_aux (S (length path)) path
+
+(** val is_meta : n -> bool **)
+
+let is_meta c =
+  existsb (fun m -> N.eqb c m) ((Npos (XO (XO (XI (XI (XI (XO
+    XH))))))) :: ((Npos (XO (XI (XI (XI (XO XH)))))) :: ((Npos (XI (XI (XO
+    (XI (XO XH)))))) :: ((Npos (XO (XI (XO (XI (XO XH)))))) :: ((Npos (XI (XI
+    (XI (XI (XI XH)))))) :: ((Npos (XO (XO (XO (XI (XO XH)))))) :: ((Npos (XI
+    (XO (XO (XI (XO XH)))))) :: ((Npos (XO (XO (XI (XI (XI (XI
+    XH))))))) :: ((Npos (XI (XI (XO (XI (XI (XO XH))))))) :: ((Npos (XI (XO
+    (XI (XI (XI (XO XH))))))) :: ((Npos (XI (XI (XO (XI (XI (XI
+    XH))))))) :: ((Npos (XI (XO (XI (XI (XI (XI XH))))))) :: ((Npos (XO (XI
+    (XI (XI (XI (XO XH))))))) :: ((Npos (XO (XO (XI (XO (XO
+    XH)))))) :: []))))))))))))))
+
+(** val quote_meta : str -> str **)
+
+let quote_meta s =
+  flat_map (fun c -> if is_meta c then c_bslash :: (c :: []) else c :: []) s
+
+(** val legal_class : str **)
+
+let legal_class =
+  b (String ((Ascii (true, true, false, true, true, false, true, false)),
+    (String ((Ascii (true, false, false, false, false, true, true, false)),
+    (String ((Ascii (true, false, true, true, false, true, false, false)),
+    (String ((Ascii (false, true, false, true, true, true, true, false)),
     (String ((Ascii (true, false, false, false, false, false, true, false)),
-    (String ((Ascii (false, false, true, false, false, true, true, false)),
-    (String ((Ascii (true, false, true, true, false, true, true, false)),
-    (String ((Ascii (true, false, false, true, false, true, true, false)),
-    (String ((Ascii (false, true, true, true, false, true, true, false)),
-    EmptyString))))))))))))))))))))))))))))
+    (String ((Ascii (true, false, true, true, false, true, false, false)),
+    (String ((Ascii (false, true, false, true, true, false, true, false)),
+    (String ((Ascii (false, false, false, false, true, true, false, false)),
+    (String ((Ascii (true, false, true, true, false, true, false, false)),
+    (String ((Ascii (true, false, false, true, true, true, false, false)),
+    (String ((Ascii (true, true, true, true, true, false, true, false)),
+    (String ((Ascii (false, true, false, true, true, true, false, false)),
+    (String ((Ascii (false, false, true, true, false, true, false, false)),
+    (String ((Ascii (false, false, true, true, true, false, true, false)),
+    (String ((Ascii (true, false, true, true, false, true, false, false)),
+    (String ((Ascii (false, false, true, true, true, false, true, false)),
+    (String ((Ascii (false, true, true, true, false, true, false, false)),
+    (String ((Ascii (true, false, true, true, true, false, true, false)),
+    (String ((Ascii (false, true, false, true, false, true, false, false)),
+    (String ((Ascii (true, true, true, true, true, true, false, false)),
+    EmptyString))))))))))))))))))))))))))))))))))))))))
 
-(** val roc_group : str -> str **)
+(** val wildcard_regexp : str -> bool -> str **)
 
-let roc_group override =
-  if nonempty override then override else default_roc
+let wildcard_regexp query exact =
+  let q1 =
+    replace_all
+      (b (String ((Ascii (false, false, true, true, true, false, true,
+        false)), (String ((Ascii (false, true, true, true, false, true,
+        false, false)), (String ((Ascii (false, false, true, true, true,
+        false, true, false)), (String ((Ascii (false, true, true, true,
+        false, true, false, false)), (String ((Ascii (false, false, true,
+        true, true, false, true, false)), (String ((Ascii (false, true, true,
+        true, false, true, false, false)), EmptyString)))))))))))))
+      (b (String ((Ascii (false, true, true, true, false, true, false,
+        false)), (String ((Ascii (false, true, false, true, false, true,
+        false, false)), EmptyString))))) (quote_meta query)
+  in
+  let q2 =
+    replace_all
+      (b (String ((Ascii (false, false, true, true, true, false, true,
+        false)), (String ((Ascii (false, true, false, true, false, true,
+        false, false)), EmptyString))))) legal_class q1
+  in
+  if exact
+  then app
+         (b (String ((Ascii (false, true, true, true, true, false, true,
+           false)), EmptyString)))
+         (app q2
+           (b (String ((Ascii (false, false, true, false, false, true, false,
+             false)), EmptyString))))
+  else if (||) (suffixb (c_slash :: []) query)
+            (suffixb
+              (b (String ((Ascii (false, true, true, true, false, true,
+                false, false)), (String ((Ascii (false, true, true, true,
+                false, true, false, false)), (String ((Ascii (false, true,
+                true, true, false, true, false, false)), EmptyString)))))))
+              query)
+       then app
+              (b (String ((Ascii (false, true, true, true, true, false, true,
+                false)), EmptyString))) q2
+       else app
+              (b (String ((Ascii (false, true, true, true, true, false, true,
+                false)), EmptyString)))
+              (app q2
+                (b (String ((Ascii (false, false, false, true, false, true,
+                  false, false)), (String ((Ascii (true, true, true, true,
+                  true, true, false, false)), (String ((Ascii (false, true,
+                  false, true, true, true, false, false)), (String ((Ascii
+                  (false, false, true, false, false, true, false, false)),
+                  (String ((Ascii (false, false, true, true, true, true,
+                  true, false)), (String ((Ascii (true, true, false, true,
+                  true, false, true, false)), (String ((Ascii (true, true,
+                  true, true, false, true, false, false)), (String ((Ascii
+                  (false, false, true, true, true, false, true, false)),
+                  (String ((Ascii (true, true, false, true, true, false,
+                  true, false)), (String ((Ascii (true, false, true, true,
+                  true, false, true, false)), (String ((Ascii (true, false,
+                  false, true, false, true, false, false)),
+                  EmptyString))))))))))))))))))))))))
 
-(** val report_targets : bool -> str -> str list -> str list -> str list **)
+type tok =
+| TLit of n
+| TAny
+| TLegal
 
-let report_targets oidc override groups targets =
-  if oidc
-  then filter (fun t ->
-         existsb (fun g ->
-           (||) (eqb_str t g) (eqb_str g (roc_group override))) groups)
-         targets
-  else targets
+type rend =
+| EndExact
+| EndOpen
+| EndBoundary
 
-(** val get_all_targets : bool -> str -> md -> str list -> str list **)
+(** val re_atoms : nat -> str -> (tok list * rend) option **)
 
-let get_all_targets oidc override m targets =
-  report_targets oidc override (get_groups m) targets
+let rec re_atoms fuel s =
+  match fuel with
+  | O -> None
+  | S f ->
+    if eqb_str s []
+    then Some ([], EndOpen)
+    else if eqb_str s
+              (b (String ((Ascii (false, false, true, false, false, true,
+                false, false)), EmptyString)))
+         then Some ([], EndExact)
+         else if eqb_str s
+                   (b (String ((Ascii (false, false, false, true, false,
+                     true, false, false)), (String ((Ascii (true, true, true,
+                     true, true, true, false, false)), (String ((Ascii
+                     (false, true, false, true, true, true, false, false)),
+                     (String ((Ascii (false, false, true, false, false, true,
+                     false, false)), (String ((Ascii (false, false, true,
+                     true, true, true, true, false)), (String ((Ascii (true,
+                     true, false, true, true, false, true, false)), (String
+                     ((Ascii (true, true, true, true, false, true, false,
+                     false)), (String ((Ascii (false, false, true, true,
+                     true, false, true, false)), (String ((Ascii (true, true,
+                     false, true, true, false, true, false)), (String ((Ascii
+                     (true, false, true, true, true, false, true, false)),
+                     (String ((Ascii (true, false, false, true, false, true,
+                     false, false)), EmptyString)))))))))))))))))))))))
+              then Some ([], EndBoundary)
+              else if prefixb legal_class s
+                   then option_map (fun r -> ((TLegal :: (fst r)), (snd r)))
+                          (re_atoms f (skipn (length legal_class) s))
+                   else (match s with
+                         | [] -> None
+                         | c :: s' ->
+                           (match c with
+                            | N0 ->
+                              if is_meta c
+                              then None
+                              else option_map (fun r -> (((TLit
+                                     c) :: (fst r)), (snd r))) (re_atoms f s')
+                            | Npos p ->
+                              (match p with
+                               | XO p0 ->
+                                 (match p0 with
+                                  | XI p1 ->
+                                    (match p1 with
+                                     | XI p2 ->
+                                       (match p2 with
+                                        | XI p3 ->
+                                          (match p3 with
+                                           | XO p4 ->
+                                             (match p4 with
+                                              | XH ->
+                                                (match s' with
+                                                 | [] ->
+                                                   if is_meta c
+                                                   then None
+                                                   else option_map (fun r ->
+                                                          (((TLit
+                                                          c) :: (fst r)),
+                                                          (snd r)))
+                                                          (re_atoms f s')
+                                                 | n0 :: s'0 ->
+                                                   (match n0 with
+                                                    | N0 ->
+                                                      if is_meta c
+                                                      then None
+                                                      else option_map
+                                                             (fun r ->
+                                                             (((TLit
+                                                             c) :: (fst r)),
+                                                             (snd r)))
+                                                             (re_atoms f s')
+                                                    | Npos p5 ->
+                                                      (match p5 with
+                                                       | XO p6 ->
+                                                         (match p6 with
+                                                          | XI p7 ->
+                                                            (match p7 with
+                                                             | XO p8 ->
+                                                               (match p8 with
+                                                                | XI p9 ->
+                                                                  (match p9 with
+                                                                   | XO p10 ->
+                                                                    (match p10 with
+                                                                    | XH ->
+                                                                    option_map
+                                                                    (fun r ->
+                                                                    ((TAny :: 
+                                                                    (fst r)),
+                                                                    (snd r)))
+                                                                    (re_atoms
+                                                                    f s'0)
+                                                                    | _ ->
+                                                                    if 
+                                                                    is_meta c
+                                                                    then None
+                                                                    else 
+                                                                    option_map
+                                                                    (fun r ->
+                                                                    (((TLit
+                                                                    c) :: 
+                                                                    (fst r)),
+                                                                    (snd r)))
+                                                                    (re_atoms
+                                                                    f s'))
+                                                                   | _ ->
+                                                                    if 
+                                                                    is_meta c
+                                                                    then None
+                                                                    else 
+                                                                    option_map
+                                                                    (fun r ->
+                                                                    (((TLit
+                                                                    c) :: 
+                                                                    (fst r)),
+                                                                    (snd r)))
+                                                                    (re_atoms
+                                                                    f s'))
+                                                                | _ ->
+                                                                  if is_meta c
+                                                                  then None
+                                                                  else 
+                                                                    option_map
+                                                                    (fun r ->
+                                                                    (((TLit
+                                                                    c) :: 
+                                                                    (fst r)),
+                                                                    (snd r)))
+                                                                    (re_atoms
+                                                                    f s'))
+                                                             | _ ->
+                                                               if is_meta c
+                                                               then None
+                                                               else option_map
+                                                                    (fun r ->
+                                                                    (((TLit
+                                                                    c) :: 
+                                                                    (fst r)),
+                                                                    (snd r)))
+                                                                    (re_atoms
+                                                                    f s'))
+                                                          | _ ->
+                                                            if is_meta c
+                                                            then None
+                                                            else option_map
+                                                                   (fun r ->
+                                                                   (((TLit
+                                                                   c) :: 
+                                                                   (fst r)),
+                                                                   (snd r)))
+                                                                   (re_atoms
+                                                                    f s'))
+                                                       | _ ->
+                                                         if is_meta c
+                                                         then None
+                                                         else option_map
+                                                                (fun r ->
+                                                                (((TLit
+                                                                c) :: 
+                                                                (fst r)),
+                                                                (snd r)))
+                                                                (re_atoms f
+                                                                  s'))))
+                                              | _ ->
+                                                if is_meta c
+                                                then None
+                                                else option_map (fun r ->
+                                                       (((TLit
+                                                       c) :: (fst r)),
+                                                       (snd r)))
+                                                       (re_atoms f s'))
+                                           | _ ->
+                                             if is_meta c
+                                             then None
+                                             else option_map (fun r ->
+                                                    (((TLit c) :: (fst r)),
+                                                    (snd r))) (re_atoms f s'))
+                                        | _ ->
+                                          if is_meta c
+                                          then None
+                                          else option_map (fun r -> (((TLit
+                                                 c) :: (fst r)), (snd r)))
+                                                 (re_atoms f s'))
+                                     | _ ->
+                                       if is_meta c
+                                       then None
+                                       else option_map (fun r -> (((TLit
+                                              c) :: (fst r)), (snd r)))
+                                              (re_atoms f s'))
+                                  | XO p1 ->
+                                    (match p1 with
+                                     | XI p2 ->
+                                       (match p2 with
+                                        | XI p3 ->
+                                          (match p3 with
+                                           | XI p4 ->
+                                             (match p4 with
+                                              | XO p5 ->
+                                                (match p5 with
+                                                 | XH ->
+                                                   (match s' with
+                                                    | [] ->
+                                                      if is_meta c
+                                                      then None
+                                                      else option_map
+                                                             (fun r ->
+                                                             (((TLit
+                                                             c) :: (fst r)),
+                                                             (snd r)))
+                                                             (re_atoms f s')
+                                                    | c0 :: s'0 ->
+                                                      if is_meta c0
+                                                      then option_map
+                                                             (fun r ->
+                                                             (((TLit
+                                                             c0) :: (fst r)),
+                                                             (snd r)))
+                                                             (re_atoms f s'0)
+                                                      else None)
+                                                 | _ ->
+                                                   if is_meta c
+                                                   then None
+                                                   else option_map (fun r ->
+                                                          (((TLit
+                                                          c) :: (fst r)),
+                                                          (snd r)))
+                                                          (re_atoms f s'))
+                                              | _ ->
+                                                if is_meta c
+                                                then None
+                                                else option_map (fun r ->
+                                                       (((TLit
+                                                       c) :: (fst r)),
+                                                       (snd r)))
+                                                       (re_atoms f s'))
+                                           | _ ->
+                                             if is_meta c
+                                             then None
+                                             else option_map (fun r ->
+                                                    (((TLit c) :: (fst r)),
+                                                    (snd r))) (re_atoms f s'))
+                                        | _ ->
+                                          if is_meta c
+                                          then None
+                                          else option_map (fun r -> (((TLit
+                                                 c) :: (fst r)), (snd r)))
+                                                 (re_atoms f s'))
+                                     | _ ->
+                                       if is_meta c
+                                       then None
+                                       else option_map (fun r -> (((TLit
+                                              c) :: (fst r)), (snd r)))
+                                              (re_atoms f s'))
+                                  | XH ->
+                                    if is_meta c
+                                    then None
+                                    else option_map (fun r -> (((TLit
+                                           c) :: (fst r)), (snd r)))
+                                           (re_atoms f s'))
+                               | _ ->
+                                 if is_meta c
+                                 then None
+                                 else option_map (fun r -> (((TLit
+                                        c) :: (fst r)), (snd r)))
+                                        (re_atoms f s'))))
+
+(** val must_compile : str -> (tok list * rend) outcome **)
+
+let must_compile = function
+| [] -> Panic w_regexp
+| n0 :: body ->
+  (match n0 with
+   | N0 -> Panic w_regexp
+   | Npos p ->
+     (match p with
+      | XO p0 ->
+        (match p0 with
+         | XI p1 ->
+           (match p1 with
+            | XI p2 ->
+              (match p2 with
+               | XI p3 ->
+                 (match p3 with
+                  | XI p4 ->
+                    (match p4 with
+                     | XO p5 ->
+                       (match p5 with
+                        | XH ->
+                          (match re_atoms (S (length body)) body with
+                           | Some r -> Ok r
+                           | None -> Panic w_regexp)
+                        | _ -> Panic w_regexp)
+                     | _ -> Panic w_regexp)
+                  | _ -> Panic w_regexp)
+               | _ -> Panic w_regexp)
+            | _ -> Panic w_regexp)
+         | _ -> Panic w_regexp)
+      | _ -> Panic w_regexp))
+
+(** val legal_char : n -> bool **)
+
+let legal_char c =
+  (||)
+    ((||)
+      ((||)
+        ((||)
+          ((||) (is_alnum c)
+            (N.eqb c (Npos (XI (XI (XI (XI (XI (XO XH)))))))))
+          (N.eqb c (Npos (XO (XI (XO (XI (XI XH))))))))
+        (N.eqb c (Npos (XO (XO (XI (XI (XO XH))))))))
+      (N.eqb c (Npos (XI (XO (XI (XI (XO XH))))))))
+    (N.eqb c (Npos (XO (XI (XI (XI (XO XH)))))))
+
+(** val re_match : tok list -> rend -> str -> bool **)
+
+let rec re_match toks e s =
+  match toks with
+  | [] ->
+    (match e with
+     | EndExact -> eqb_str s []
+     | EndOpen -> true
+     | EndBoundary ->
+       (match s with
+        | [] -> true
+        | c :: _ -> (||) (N.eqb c c_slash) (N.eqb c c_lbr)))
+  | t0 :: t ->
+    (match t0 with
+     | TLit c ->
+       (match s with
+        | [] -> false
+        | x :: s' -> (&&) (N.eqb x c) (re_match t e s'))
+     | TAny ->
+       let rec go s0 =
+         (||) (re_match t e s0)
+           (match s0 with
+            | [] -> false
+            | x :: s' -> (&&) (negb (N.eqb x c_nl)) (go s'))
+       in go s
+     | TLegal ->
+       let rec go s0 =
+         (||) (re_match t e s0)
+           (match s0 with
+            | [] -> false
+            | x :: s' -> (&&) (legal_char x) (go s'))
+       in go s)
+
+(** val extract_ext : n -> extension list -> ext_payload option outcome **)
+
+let rec extract_ext id = function
+| [] -> Ok None
+| e :: rest ->
+  (match e with
+   | ERegistered r ->
+     (match r with
+      | Some p0 ->
+        let (i, p) = p0 in
+        if N.eqb i id then Ok (Some p) else extract_ext id rest
+      | None -> Panic w_nil)
+   | EOther -> extract_ext id rest)
+
+(** val id_strategy : n **)
+
+let id_strategy =
+  Npos (XI (XI (XI (XI (XO (XI XH))))))
+
+(** val id_overrides : n **)
+
+let id_overrides =
+  Npos (XO (XO (XO (XO (XI (XI XH))))))
+
+(** val get_overrides :
+    extension list -> (str * (str * str) option) list outcome **)
+
+let get_overrides exts =
+  bind (extract_ext id_overrides exts) (fun x ->
+    match x with
+    | Some e -> (match e with
+                 | XOverrides m -> Ok m
+                 | _ -> Err c_invalid)
+    | None -> Ok [])
+
+(** val get_strategy : extension list -> bool outcome **)
+
+let get_strategy exts =
+  bind (extract_ext id_strategy exts) (fun x ->
+    match x with
+    | Some e -> (match e with
+                 | XStrategy b0 -> Ok b0
+                 | _ -> Err c_invalid)
+    | None -> Ok false)
+
+(** val find_target : env -> str -> target option **)
+
+let find_target e id =
+  find (fun t -> eqb_str t.tg_id id) e.en_topo
+
+(** val find_plugin : env -> str -> str -> plugin option **)
+
+let find_plugin e ty ver =
+  find (fun p -> (&&) (eqb_str p.pl_type ty) (eqb_str p.pl_version ver))
+    e.en_plugins
+
+(** val lookup_override :
+    (str * (str * str) option) list -> str -> (str * str) option option **)
+
+let lookup_override m id =
+  option_map snd (find (fun kv -> eqb_str (fst kv) id) m)
+
+(** val resolve_target :
+    env -> (str * (str * str) option) list -> str -> plugin outcome **)
+
+let resolve_target e ov id =
+  match find_target e id with
+  | Some t ->
+    bind
+      (match lookup_override ov id with
+       | Some o -> (match o with
+                    | Some tv -> Ok tv
+                    | None -> Err c_invalid)
+       | None -> Ok (t.tg_type, t.tg_version)) (fun tv ->
+      match find_plugin e (fst tv) (snd tv) with
+      | Some p -> Ok p
+      | None -> Err c_notfound)
+  | None -> Err c_notfound
+
+type set_req = { s_prefix : gpath option; s_delete : gpath option list;
+                 s_replace : update option list;
+                 s_update : update option list; s_ext : extension list }
+
+(** val path_target : gpath option -> str **)
+
+let path_target = function
+| Some p0 -> p0.p_target
+| None -> []
+
+(** val full_path : gpath option -> gpath option -> str outcome **)
+
+let full_path prefix p =
+  bind (str_path prefix) (fun pp ->
+    bind (str_path p) (fun s -> Ok (if eqb_str pp root then s else app pp s)))
+
+(** val do_delete :
+    rwpath list -> gpath option -> gpath option -> str outcome **)
+
+let do_delete rw prefix p =
+  bind (full_path prefix p) (fun path ->
+    bind (find_path_from_model path rw false) (fun r ->
+      let (b0, o) = r in
+      if b0
+      then (match o with
+            | Some rp ->
+              if (&&) rp.rw_iskey (negb (suffixb (c_rbr :: []) path))
+              then slice path Z0 (zlast_index c_slash path)
+              else Ok path
+            | None -> Ok path)
+      else Ok path))
+
+(** val do_update :
+    rwpath list -> gpath option -> update option -> str list outcome **)
+
+let do_update rw prefix = function
+| Some u0 ->
+  bind (full_path prefix u0.u_path) (fun path ->
+    match u0.u_val with
+    | Some t ->
+      (match t with
+       | TScalar s ->
+         bind (find_path_from_model path rw true) (fun r ->
+           let (_, o) = r in
+           (match o with
+            | Some rp ->
+              bind (to_native (Some (TScalar s))) (fun nv ->
+                bind (check_key_value path rp nv) (fun _ -> Ok (path :: [])))
+            | None -> Panic w_nil))
+       | TJson _ ->
+         bind (json_base_path path) (fun _ ->
+           match u0.u_plugin with
+           | PErr c -> Err c
+           | PPaths ps -> Ok ps)
+       | TLeaflist l ->
+         bind (find_path_from_model path rw true) (fun r ->
+           let (_, o) = r in
+           (match o with
+            | Some rp ->
+              bind (to_native (Some (TLeaflist l))) (fun nv ->
+                bind (check_key_value path rp nv) (fun _ -> Ok (path :: [])))
+            | None -> Panic w_nil)))
+    | None ->
+      bind (find_path_from_model path rw true) (fun r ->
+        let (_, o) = r in
+        (match o with
+         | Some rp ->
+           bind (to_native None) (fun nv ->
+             bind (check_key_value path rp nv) (fun _ -> Ok (path :: [])))
+         | None -> Panic w_nil)))
+| None -> Panic w_nil
+
+type tinfo = { ti_id : str; ti_plugin : plugin; ti_updates : str list;
+               ti_removes : str list }
+
+(** val set_target_id : gpath option -> str -> str **)
+
+let set_target_id prefix path_tgt =
+  let pt = path_target prefix in if eqb_str pt [] then path_tgt else pt
+
+(** val get_tinfo :
+    env -> (str * (str * str) option) list -> tinfo list -> str ->
+    (tinfo * tinfo list) outcome **)
+
+let get_tinfo e ov ts id =
+  match find (fun t -> eqb_str t.ti_id id) ts with
+  | Some t -> Ok (t, ts)
+  | None ->
+    bind (resolve_target e ov id) (fun p ->
+      let t = { ti_id = id; ti_plugin = p; ti_updates = []; ti_removes = [] }
+      in
+      Ok (t, (t :: ts)))
+
+(** val put_tinfo : tinfo -> tinfo list -> tinfo list **)
+
+let put_tinfo t ts =
+  map (fun x -> if eqb_str x.ti_id t.ti_id then t else x) ts
+
+(** val set_deletes :
+    env -> (str * (str * str) option) list -> gpath option -> gpath option
+    list -> tinfo list -> tinfo list outcome **)
+
+let rec set_deletes e ov prefix ds ts =
+  match ds with
+  | [] -> Ok ts
+  | d :: ds' ->
+    bind (get_tinfo e ov ts (set_target_id prefix (path_target d))) (fun r ->
+      let (t, ts1) = r in
+      bind (do_delete t.ti_plugin.pl_rw prefix d) (fun path ->
+        set_deletes e ov prefix ds'
+          (put_tinfo { ti_id = t.ti_id; ti_plugin = t.ti_plugin; ti_updates =
+            t.ti_updates; ti_removes = (app t.ti_removes (path :: [])) } ts1)))
+
+(** val set_updates :
+    env -> (str * (str * str) option) list -> gpath option -> update option
+    list -> tinfo list -> tinfo list outcome **)
+
+let rec set_updates e ov prefix us ts =
+  match us with
+  | [] -> Ok ts
+  | u :: us' ->
+    bind
+      (match u with
+       | Some u0 -> Ok (path_target u0.u_path)
+       | None -> Panic w_nil) (fun tgt ->
+      bind (get_tinfo e ov ts (set_target_id prefix tgt)) (fun r ->
+        let (t, ts1) = r in
+        bind (do_update t.ti_plugin.pl_rw prefix u) (fun ps ->
+          set_updates e ov prefix us'
+            (put_tinfo { ti_id = t.ti_id; ti_plugin = t.ti_plugin;
+              ti_updates = (app t.ti_updates ps); ti_removes = t.ti_removes }
+              ts1))))
+
+(** val dedup_count : str list -> n **)
+
+let dedup_count l =
+  N.of_nat (length (nodup str_eq_dec l))
+
+(** val set_handler : env -> set_req -> bool outcome **)
+
+let set_handler e r =
+  bind (get_overrides r.s_ext) (fun ov ->
+    bind (get_strategy r.s_ext) (fun _ ->
+      if Nat.ltb
+           (add (add (length r.s_update) (length r.s_replace))
+             (length r.s_delete)) (S O)
+      then Err c_invalid
+      else bind (set_deletes e ov r.s_prefix r.s_delete []) (fun ts ->
+             bind (set_updates e ov r.s_prefix r.s_replace ts) (fun ts0 ->
+               bind (set_updates e ov r.s_prefix r.s_update ts0) (fun ts1 ->
+                 if (&&) (N.ltb N0 e.en_size_limit)
+                      ((||) (negb (Nat.eqb (length ts1) (S O)))
+                        (existsb (fun t ->
+                          N.ltb e.en_size_limit
+                            (N.add (dedup_count t.ti_updates)
+                              (N.of_nat (length t.ti_removes)))) ts1))
+                 then Err c_invalid
+                 else if forallb (fun t ->
+                           (&&) (forallb is_path_valid t.ti_updates)
+                             (forallb is_path_valid t.ti_removes)) ts1
+                      then Ok false
+                      else Err c_invalid)))))
+
+type get_req = { g_prefix : gpath option; g_path : gpath option list;
+                 g_encoding : n; g_type : n; g_ext : extension list }
+
+(** val enc_json : n **)
+
+let enc_json =
+  N0
+
+(** val enc_proto : n **)
+
+let enc_proto =
+  Npos (XO XH)
+
+(** val enc_json_ietf : n **)
+
+let enc_json_ietf =
+  Npos (XO (XO XH))
+
+(** val c_dash : n **)
+
+let c_dash =
+  Npos (XI (XO (XI (XI (XO XH)))))
+
+(** val config_id : str -> str -> str -> str **)
+
+let config_id id ty ver =
+  app id (app (c_dash :: []) (app ty (app (c_dash :: []) ver)))
+
+(** val find_config : state -> str -> str -> str -> config option **)
+
+let find_config st id ty ver =
+  find (fun c -> eqb_str c.cf_id (config_id id ty ver)) st
+
+(** val add_target :
+    env -> state -> (str * (str * str) option) list -> str -> config outcome **)
+
+let add_target e st ov id =
+  bind (resolve_target e ov id) (fun p ->
+    match find_config st id p.pl_type p.pl_version with
+    | Some c -> Ok c
+    | None -> Err c_notfound)
+
+(** val forall_guard : ('a1 -> unit outcome) -> 'a1 list -> unit outcome **)
+
+let rec forall_guard f = function
+| [] -> Ok ()
+| x :: l' -> bind (f x) (fun _ -> forall_guard f l')
+
+(** val get_update : config -> n -> str -> bool outcome **)
+
+let get_update c enc query =
+  bind (must_compile (wildcard_regexp query false)) (fun re ->
+    let sel =
+      filter (fun v ->
+        (&&) (re_match (fst re) (snd re) v.sv_path) (negb v.sv_deleted))
+        c.cf_values
+    in
+    (match sel with
+     | [] -> Ok true
+     | _ :: _ ->
+       if (||) (N.eqb enc enc_json) (N.eqb enc enc_json_ietf)
+       then bind
+              (forall_guard (fun v ->
+                bind (tree_guard v.sv_path) (fun _ -> leaf_guard v.sv_val))
+                sel) (fun _ -> Ok false)
+       else if N.eqb enc enc_proto
+            then bind (forall_guard (fun v -> leaf_guard v.sv_val) sel)
+                   (fun _ -> Ok false)
+            else Err c_invalid))
+
+(** val trim_slash : str -> str **)
+
+let trim_slash s =
+  if suffixb (c_slash :: []) s then removelast s else s
+
+(** val prefix_has_elems : gpath option -> bool **)
+
+let prefix_has_elems = function
+| Some p -> (match p.p_elem with
+             | [] -> false
+             | _ :: _ -> true)
+| None -> false
+
+(** val get_paths :
+    env -> state -> (str * (str * str) option) list -> gpath option -> gpath
+    option list -> (str * config) list -> (str * str) list -> ((str * config)
+    list * (str * str) list) option outcome **)
+
+let rec get_paths e st ov prefix ps seen acc =
+  match ps with
+  | [] -> Ok (Some (seen, acc))
+  | o :: ps' ->
+    (match o with
+     | Some p ->
+       if (||)
+            (eqb_str p.p_target
+              (b (String ((Ascii (false, true, false, true, false, true,
+                false, false)), EmptyString))))
+            (eqb_str (path_target prefix)
+              (b (String ((Ascii (false, true, false, true, false, true,
+                false, false)), EmptyString))))
+       then Ok None
+       else let id =
+              if eqb_str p.p_target [] then path_target prefix else p.p_target
+            in
+            if eqb_str id []
+            then Err c_invalid
+            else bind
+                   (match find (fun sc -> eqb_str (fst sc) id) seen with
+                    | Some _ -> Ok seen
+                    | None ->
+                      bind (add_target e st ov id) (fun c -> Ok ((id,
+                        c) :: seen))) (fun seen' ->
+                   bind (str_path (Some p)) (fun s ->
+                     bind
+                       (if prefix_has_elems prefix
+                        then bind (str_path prefix) (fun pp -> Ok (app pp s))
+                        else Ok s) (fun s0 ->
+                       get_paths e st ov prefix ps' seen'
+                         (app acc ((id, (trim_slash s0)) :: [])))))
+     | None -> Panic w_nil)
+
+(** val get_updates :
+    (str * config) list -> n -> (str * str) list -> bool -> bool outcome **)
+
+let rec get_updates seen enc qs definite =
+  match qs with
+  | [] -> Ok definite
+  | p :: qs' ->
+    let (id, q) = p in
+    (match find (fun sc -> eqb_str (fst sc) id) seen with
+     | Some p0 ->
+       let (_, c) = p0 in
+       bind (get_update c enc q) (fun d ->
+         get_updates seen enc qs' ((&&) definite d))
+     | None -> get_updates seen enc qs' definite)
+
+(** val get_handler : env -> state -> get_req -> bool outcome **)
+
+let get_handler e st r =
+  if negb
+       ((||)
+         ((||) (N.eqb r.g_encoding enc_proto)
+           (N.eqb r.g_encoding enc_json_ietf)) (N.eqb r.g_encoding enc_json))
+  then Err c_invalid
+  else bind (get_strategy r.g_ext) (fun sync ->
+         if (||) (N.eqb r.g_type (Npos (XO XH)))
+              (N.eqb r.g_type (Npos (XI XH)))
+         then let rec go ps any =
+                match ps with
+                | [] -> if any then Err c_some else Ok true
+                | o :: ps' ->
+                  (match o with
+                   | Some p ->
+                     let id =
+                       if eqb_str p.p_target []
+                       then path_target r.g_prefix
+                       else p.p_target
+                     in
+                     if eqb_str id [] then Err c_invalid else go ps' true
+                   | None -> Panic w_nil)
+              in go r.g_path false
+         else bind
+                (match get_overrides r.g_ext with
+                 | Err _ -> Err c_internal
+                 | x -> x) (fun ov ->
+                bind (get_paths e st ov r.g_prefix r.g_path [] []) (fun x ->
+                  match x with
+                  | Some p ->
+                    let (seen, qs) = p in
+                    bind
+                      (match r.g_path with
+                       | [] ->
+                         (match r.g_prefix with
+                          | Some pf ->
+                            if eqb_str pf.p_target []
+                            then Err c_invalid
+                            else bind
+                                   (match add_target e st ov pf.p_target with
+                                    | Err _ -> Err c_invalid
+                                    | x0 -> x0) (fun c ->
+                                   bind (str_path (Some pf)) (fun q ->
+                                     bind (get_update c r.g_encoding q)
+                                       (fun d -> Ok (d, ((pf.p_target,
+                                       c) :: [])))))
+                          | None -> Ok (true, seen))
+                       | _ :: _ -> Ok (true, seen)) (fun r1 ->
+                      bind (get_updates seen r.g_encoding qs (fst r1))
+                        (fun d ->
+                        if (&&) sync
+                             (negb
+                               (match snd r1 with
+                                | [] -> true
+                                | _ :: _ -> false))
+                        then Ok false
+                        else Ok d))
+                  | None -> Ok true)))
+
+type sub_msg =
+| MSubscribe of gpath option * gpath option list
+| MPoll
+| MOther
+
+(** val subscribe_step : bool -> sub_msg -> bool outcome **)
+
+let subscribe_step subscribed = function
+| MSubscribe (prefix, subs) ->
+  if subscribed
+  then Err c_unknown
+  else if negb (eqb_str (path_target prefix) [])
+       then Ok true
+       else if existsb (fun s -> negb (eqb_str (path_target s) [])) subs
+            then Ok true
+            else Err c_unknown
+| MPoll -> if subscribed then Ok true else Err c_unknown
+| MOther -> Err c_unknown
+
+(** val subscribe_handler : bool -> sub_msg list -> bool outcome **)
+
+let rec subscribe_handler subscribed = function
+| [] -> Ok true
+| m :: ms' ->
+  bind (subscribe_step subscribed m) (fun _ ->
+    subscribe_handler
+      ((||) subscribed (match m with
+                        | MSubscribe (_, _) -> true
+                        | _ -> false)) ms')
+
+type lsq_req = { l_target : str; l_type : str; l_version : str;
+                 l_ctx : set_req option }
+
+(** val lsq_updates :
+    rwpath list -> gpath option -> update option list -> str list -> str list
+    outcome **)
+
+let rec lsq_updates rw prefix us acc =
+  match us with
+  | [] -> Ok acc
+  | u :: us' ->
+    bind (do_update rw prefix u) (fun ps ->
+      lsq_updates rw prefix us' (app acc ps))
+
+(** val lsq_deletes :
+    rwpath list -> gpath option -> gpath option list -> str list -> str list
+    outcome **)
+
+let rec lsq_deletes rw prefix ds acc =
+  match ds with
+  | [] -> Ok acc
+  | d :: ds' ->
+    bind (do_delete rw prefix d) (fun p ->
+      lsq_deletes rw prefix ds' (app acc (p :: [])))
+
+(** val lsq_merge : stored list -> str list -> str list -> stored list **)
+
+let lsq_merge vals ups dels =
+  let marked =
+    map (fun v ->
+      if existsb (eqb_str v.sv_path) dels
+      then { sv_path = v.sv_path; sv_deleted = true; sv_val = v.sv_val }
+      else v) vals
+  in
+  app (filter (fun v -> negb (existsb (eqb_str v.sv_path) ups)) marked)
+    (map (fun p -> { sv_path = p; sv_deleted = false; sv_val =
+      (mk_nval vt_string N0 [] None) }) ups)
+
+(** val below_deleted : str list -> str -> bool **)
+
+let below_deleted dels p =
+  (||)
+    ((&&) (negb (eqb_str p root))
+      (existsb (fun d -> (||) (eqb_str d root) (eqb_str d [])) dels))
+    (existsb (fun d ->
+      (&&)
+        ((&&) ((&&) (negb (eqb_str d [])) (negb (eqb_str d root)))
+          (prefixb d p))
+        (match skipn (length d) p with
+         | [] -> false
+         | c :: _ -> (||) (N.eqb c c_slash) (N.eqb c c_lbr))) dels)
+
+(** val prune : stored list -> stored list **)
+
+let prune vals =
+  let dels = map (fun s -> s.sv_path) (filter (fun s -> s.sv_deleted) vals) in
+  filter (fun v ->
+    (&&) (negb v.sv_deleted) (negb (below_deleted dels v.sv_path))) vals
+
+(** val build_tree_guard : stored list -> unit outcome **)
+
+let build_tree_guard vals =
+  forall_guard (fun v ->
+    bind (tree_guard v.sv_path) (fun _ -> leaf_guard v.sv_val)) (prune vals)
+
+(** val lsq_handler : env -> state -> lsq_req -> bool outcome **)
+
+let lsq_handler e st r =
+  match find_config st r.l_target r.l_type r.l_version with
+  | Some c ->
+    (match find_plugin e r.l_type r.l_version with
+     | Some p ->
+       bind
+         (match r.l_ctx with
+          | Some cx ->
+            if Nat.ltb O
+                 (add (add (length cx.s_update) (length cx.s_replace))
+                   (length cx.s_delete))
+            then bind (lsq_updates p.pl_rw cx.s_prefix cx.s_update [])
+                   (fun ups ->
+                   bind (lsq_updates p.pl_rw cx.s_prefix cx.s_replace ups)
+                     (fun ups0 ->
+                     bind (lsq_deletes p.pl_rw cx.s_prefix cx.s_delete [])
+                       (fun dels ->
+                       if forallb is_path_valid ups0
+                       then Ok (lsq_merge c.cf_values ups0 dels)
+                       else Err c_unknown)))
+            else Ok c.cf_values
+          | None -> Ok c.cf_values) (fun vals ->
+         bind (build_tree_guard vals) (fun _ -> Ok false))
+     | None -> Err c_invalid)
+  | None -> Err c_notfound
+
+(** val capabilities_handler : bool outcome **)
+
+let capabilities_handler =
+  Ok true
+
+(** val list_models_handler : bool outcome **)
+
+let list_models_handler =
+  Ok true
+
+(** val rollback_handler : n -> bool outcome **)
+
+let rollback_handler _ =
+  Ok false
+
+(** val admin_store_handler : bool outcome **)
+
+let admin_store_handler =
+  Ok false
+
+(** val elems_ok : gpath -> bool **)
+
+let elems_ok p =
+  forallb (fun o -> match o with
+                    | Some _ -> true
+                    | None -> false) p.p_elem
+
+(** val opath_ok : gpath option -> bool **)
+
+let opath_ok = function
+| Some p0 -> elems_ok p0
+| None -> true
+
+(** val scalar_ok : scalar -> bool **)
+
+let scalar_ok = function
+| SDecimal d -> (match d with
+                 | Some _ -> true
+                 | None -> false)
+| _ -> true
+
+(** val tval_ok : tval -> bool **)
+
+let tval_ok = function
+| TScalar s -> scalar_ok s
+| TJson _ -> true
+| TLeaflist l ->
+  forallb (fun o -> match o with
+                    | Some s -> scalar_ok s
+                    | None -> false) l
+
+(** val update_ok : update option -> bool **)
+
+let update_ok = function
+| Some u0 ->
+  (&&) (opath_ok u0.u_path)
+    (match u0.u_val with
+     | Some v -> tval_ok v
+     | None -> true)
+| None -> false
+
+(** val ext_ok : extension -> bool **)
+
+let ext_ok = function
+| ERegistered r -> (match r with
+                    | Some _ -> true
+                    | None -> false)
+| EOther -> true
+
+(** val set_wire_ok : set_req -> bool **)
+
+let set_wire_ok r =
+  (&&)
+    ((&&)
+      ((&&)
+        ((&&) ((&&) (opath_ok r.s_prefix) (forallb opath_ok r.s_delete))
+          (forallb (fun d -> match d with
+                             | Some _ -> true
+                             | None -> false) r.s_delete))
+        (forallb update_ok r.s_replace)) (forallb update_ok r.s_update))
+    (forallb ext_ok r.s_ext)
+
+(** val get_wire_ok : get_req -> bool **)
+
+let get_wire_ok r =
+  (&&)
+    ((&&) ((&&) (opath_ok r.g_prefix) (forallb opath_ok r.g_path))
+      (forallb (fun d -> match d with
+                         | Some _ -> true
+                         | None -> false) r.g_path)) (forallb ext_ok r.g_ext)
+
+(** val lsq_wire_ok : lsq_req -> bool **)
+
+let lsq_wire_ok r =
+  match r.l_ctx with
+  | Some cx -> set_wire_ok cx
+  | None -> true
+
+(** val stored_ok : stored -> bool **)
+
+let stored_ok v =
+  (||) v.sv_deleted
+    ((&&) (negb (is_panic (tree_guard v.sv_path)))
+      (negb (is_panic (leaf_guard v.sv_val))))
+
+(** val state_ok : state -> bool **)
+
+let state_ok st =
+  forallb (fun c -> forallb stored_ok c.cf_values) st
